@@ -81,7 +81,7 @@ m = {
     "engines": [
         {"name": "verif-harness", "path": "/verif/harness", "serves_properties": [c["property_id"] for c in checks],
          "kind_free_text": "Rust crate: independent LZMA/LZMA2/XZ reference model + proptest generators + per-property oracles; built in two arithmetic profiles (checked = overflow-checks + debug-assertions, release = wrapping)"},
-        {"name": "verif-fuzz", "path": "/verif/fuzz", "serves_properties": ["C05", "C07", "C13", "C16"],
+        {"name": "verif-fuzz", "path": "/verif/fuzz", "serves_properties": ["C01", "C02", "C03", "C05", "C06", "C07", "C13", "C16"],
          "kind_free_text": "cargo-fuzz (libFuzzer) targets carrying the same oracle functions; used by the thorough tier"},
     ],
     "checks": checks,
